@@ -97,6 +97,16 @@ def inline_locals(fn, node, depth=4):
     return node
 
 
+def new_helper_frame(frame, ancestor):
+    """every activation between `frame` (inclusive) and `ancestor` (exclusive) is one of a newly extracted helper (not a pinned method)"""
+    f = frame
+    while f is not None and f is not ancestor and f.fid != ancestor.fid:
+        if f.func.name in ANCHOR_METHODS:
+            return False
+        f = f.parent
+    return f is not None
+
+
 def list_segments(expr, fn=None):
     """a list-building expression as segments: `[a] + X + [b]` and `[a, *X, b]` both give [("elem", a), ("splat", X), ("elem", b)] (texts); an element
     that is a local of fn assigned once reads as the expression it was assigned"""
